@@ -24,5 +24,6 @@ INVARIANT BelowTargetLossOnly
 INVARIANT TargetIsDegreeElseNode
 INVARIANT PathLossByListing
 INVARIANT SecondCrossingOnItsOwn
+INVARIANT SecondCrossingPerCarrier
 INVARIANT LevelByKind
 PROPERTY NeverAmplifiesStep
